@@ -5,7 +5,6 @@ use std::{
 	time::Duration,
 };
 
-use futures::{future::select, FutureExt};
 use watchexec_signals::Signal;
 
 use crate::flag::Flag;
@@ -143,6 +142,11 @@ impl Future for Ticket {
 	type Output = ();
 
 	fn poll(self: Pin<&mut Self>, cx: &mut Context<'_>) -> Poll<Self::Output> {
-		Pin::new(&mut select(self.job_gone.clone(), self.control_done.clone()).map(|_| ())).poll(cx)
+		// poll this ticket's own flags (not clones): each keeps its waker slot between polls
+		let this = self.get_mut();
+		if Pin::new(&mut this.job_gone).poll(cx).is_ready() {
+			return Poll::Ready(());
+		}
+		Pin::new(&mut this.control_done).poll(cx)
 	}
 }
